@@ -309,3 +309,359 @@ Proof.
   - exists f0. intros f L. rewrite (unify_mono f0 u v s Hf0 f L). exact Hf0.
 Qed.
 Print Assumptions unify_total.
+
+(* ---------- (4) both sides resolve to the same term under the result ---------- *)
+
+Lemma inst_WS s (r : val) : forall t t', WS s t t' ->
+  (forall n, In n (vars t) -> WS s (TVar n) (r n)) -> inst r t = t'.
+Proof.
+  induction t as [| a | x | a IHa d IHd]; intros t' Hw Hr; simpl.
+  - inversion Hw; reflexivity.
+  - inversion Hw; reflexivity.
+  - eapply WS_fun; [apply Hr; simpl; auto|exact Hw].
+  - apply WS_pair_inv in Hw. destruct Hw as [a' [d' [E [Ha Hd]]]]. subst t'. f_equal.
+    + apply IHa; [exact Ha|]. intros n Hn. apply Hr. simpl. apply in_or_app. auto.
+    + apply IHd; [exact Hd|]. intros n Hn. apply Hr. simpl. apply in_or_app. auto.
+Qed.
+
+(* on a wf substitution, the expansions of the variables form a solution; u and v expand to its instances *)
+Lemma WS_solution s u v : wf s -> exists r : val, sat r s /\
+  (forall t', WS s u t' -> inst r u = t') /\ (forall t', WS s v t' -> inst r v = t').
+Proof.
+  intros Hwf. pose proof Hwf as [Hnd _].
+  destruct (fin_choice (fun n t => WS s (TVar n) t) (fun n => WS_total s Hwf (TVar n))
+              (vars u ++ vars v ++ map fst s ++ flat_map (fun p => vars (snd p)) s)) as [e He].
+  exists e. split; [|split].
+  - intros x t Hin.
+    assert (Hwx: WS s (TVar x) (e x)).
+    { apply He. apply in_or_app. right. apply in_or_app. right. apply in_or_app. left.
+      change x with (fst (x, t)). apply in_map. exact Hin. }
+    pose proof (assv_NoDup x t s Hnd Hin) as Ex.
+    apply WS_var_inv in Hwx. destruct Hwx as [[Ex' _]|[t0 [Ex' Hwt]]]; [congruence|].
+    assert (t0 = t) by congruence. subst t0.
+    symmetry. apply (inst_WS s e t (e x) Hwt). intros n Hn. apply He.
+    apply in_or_app. right. apply in_or_app. right. apply in_or_app. right.
+    apply in_flat_map. exists (x, t). split; [exact Hin|exact Hn].
+  - intros t' Hw. apply (inst_WS s e u t' Hw). intros n Hn. apply He. apply in_or_app. left. exact Hn.
+  - intros t' Hw. apply (inst_WS s e v t' Hw). intros n Hn. apply He.
+    apply in_or_app. right. apply in_or_app. left. exact Hn.
+Qed.
+
+Theorem unify_walkstar_eq : forall f u v s s', wf s -> unify f u v s = Ok s' ->
+  exists f1 t, walkstar f1 u s' = Some t /\ walkstar f1 v s' = Some t.
+Proof.
+  intros f u v s s' Hwf H.
+  pose proof (unify_wf f u v s s' Hwf H) as Hwf'.
+  destruct (unify_sound f u v s s' H) as [_ Hs].
+  destruct (WS_solution s' u v Hwf') as [r [Hsat [Hru Hrv]]].
+  destruct (Hs r Hsat) as [_ Heq].
+  destruct (WS_total s' Hwf' u) as [tu Htu]. destruct (WS_total s' Hwf' v) as [tv Htv].
+  assert (E: tu = tv). { rewrite <- (Hru tu Htu), <- (Hrv tv Htv). exact Heq. }
+  subst tv.
+  destruct (walkstar_WS_total s' u tu Htu) as [fu Hfu].
+  destruct (walkstar_WS_total s' v tu Htv) as [fv Hfv].
+  exists (Nat.max fu fv), tu. split.
+  - apply (walkstar_mono fu u s' tu Hfu). lia.
+  - apply (walkstar_mono fv v s' tu Hfv). lia.
+Qed.
+Print Assumptions unify_walkstar_eq.
+
+(* ---------- (4) an explicit, computable fuel ---------- *)
+
+(* D s t n : the expansion of t under s has a derivation of depth at most n
+   (a variable hop and a pair descent cost one each) *)
+Inductive D (s : subst) : term -> nat -> Prop :=
+| D_nil n : D s TNil n
+| D_atom a n : D s (TAtom a) n
+| D_unb x n : assv x s = None -> D s (TVar x) n
+| D_bnd x t n : assv x s = Some t -> D s t n -> D s (TVar x) (S n)
+| D_pair a d n : D s a n -> D s d n -> D s (TPair a d) (S n).
+
+Lemma D_mono s t n : D s t n -> forall m, (n <= m)%nat -> D s t m.
+Proof.
+  induction 1 as [n | a n | x n Hx | x t n Hx Hd IH | a d n Ha IHa Hd IHd]; intros m L.
+  - constructor.
+  - constructor.
+  - constructor. exact Hx.
+  - destruct m as [|m]; [lia|]. eapply D_bnd; [exact Hx|]. apply IH. lia.
+  - destruct m as [|m]; [lia|]. apply D_pair; [apply IHa|apply IHd]; lia.
+Qed.
+
+Lemma D_var_inv s x n : D s (TVar x) n ->
+  assv x s = None \/ exists t n', assv x s = Some t /\ n = S n' /\ D s t n'.
+Proof.
+  intros H. inversion H; subst.
+  - left. assumption.
+  - right. eauto.
+Qed.
+
+Lemma D_pair_inv s a d n : D s (TPair a d) n -> exists n', n = S n' /\ D s a n' /\ D s d n'.
+Proof.
+  intros H. inversion H; subst. eauto.
+Qed.
+
+Lemma walk_S f x s : walk (S f) x s =
+  match assv x s with
+  | None => Some (TVar x)
+  | Some (TVar y) => walk f y s
+  | Some t => Some t
+  end.
+Proof. reflexivity. Qed.
+
+Lemma D_walk s : forall f x t, walk f x s = Some t -> forall n, D s (TVar x) n -> D s t n.
+Proof.
+  induction f as [|f IH]; intros x t H n Hd; [discriminate|].
+  rewrite walk_S in H. destruct (assv x s) as [w|] eqn:E.
+  - apply D_var_inv in Hd. destruct Hd as [E'|[t0 [n' [E' [En Hd']]]]]; [congruence|].
+    assert (t0 = w) by congruence. subst t0 n.
+    destruct w; try (inversion H; subst; apply (D_mono s _ n' Hd'); lia).
+    apply (D_mono s t n'); [|lia]. eapply IH; eauto.
+  - inversion H; subst. exact Hd.
+Qed.
+
+Lemma D_walkt s f u uu n : walkt f u s = Some uu -> D s u n -> D s uu n.
+Proof.
+  destruct u; simpl; intros H Hd; try (inversion H; subst; exact Hd).
+  eapply D_walk; eauto.
+Qed.
+
+Lemma D_walk_total s : forall n x, D s (TVar x) n -> exists t, walk (S n) x s = Some t.
+Proof.
+  induction n as [|n IHn]; intros x Hd; rewrite walk_S;
+  apply D_var_inv in Hd; destruct Hd as [E|[t [n' [E [En Hd']]]]]; rewrite E; eauto.
+  - lia.
+  - assert (n' = n) by lia. subst n'. destruct t; eauto.
+Qed.
+
+Lemma D_walkt_total s n u : D s u n -> exists uu, walkt (S n) u s = Some uu.
+Proof.
+  destruct u; simpl; eauto. apply D_walk_total.
+Qed.
+
+Lemma D_occurs s v n : D s v n -> forall x, occurs (S (S n)) x v s <> None.
+Proof.
+  induction 1 as [n | a n | y n Hy | y t n Hy Hd IH | a d n Ha IHa Hd IHd]; intros x.
+  - rewrite occurs_S. simpl. discriminate.
+  - rewrite occurs_S. simpl. discriminate.
+  - rewrite occurs_S. cbn [walkt]. rewrite walk_S, Hy. discriminate.
+  - specialize (IH x). destruct (occurs (S (S n)) x t s) as [b|] eqn:E; [|congruence].
+    rewrite (occurs_step s (S (S n)) x y t b Hy E). discriminate.
+  - specialize (IHa x). specialize (IHd x).
+    destruct (occurs (S (S n)) x a s) as [ba|] eqn:Ea; [|congruence].
+    destruct (occurs (S (S n)) x d s) as [bd|] eqn:Ed; [|congruence].
+    rewrite occurs_S. cbn [walkt]. cbv iota beta. rewrite Ea, Ed. destruct ba; discriminate.
+Qed.
+
+(* all values of s have size at most h *)
+Definition hb (h : nat) (s : subst) : Prop := forall a t, In (a, t) s -> (size t <= h)%nat.
+
+Lemma D_pair_bound s a d K : D s a (size a + K) -> D s d (size d + K) -> D s (TPair a d) (size (TPair a d) + K).
+Proof.
+  intros Ha Hd. simpl. apply D_pair.
+  - apply (D_mono s a _ Ha). lia.
+  - apply (D_mono s d _ Hd). lia.
+Qed.
+
+(* Along a path of the expansion the bound variables met have strictly decreasing rank, hence are distinct keys:
+   at most length s hops, each followed by at most h descents. *)
+Lemma D_bound s h (rank : N -> nat) :
+  (forall x t y, In (x, t) s -> In y (vars t) -> (rank y < rank x)%nat) -> hb h s ->
+  forall k path, NoDup path -> incl path (map fst s) -> (length s - length path <= k)%nat ->
+  forall t, (forall y p, In y (vars t) -> In p path -> (rank y < rank p)%nat) ->
+  D s t (size t + k * S h).
+Proof.
+  intros Hr Hh.
+  assert (Hvar: forall k path x tx, NoDup path -> incl path (map fst s) ->
+            (length s - length path <= k)%nat ->
+            (forall y p, In y (vars (TVar x)) -> In p path -> (rank y < rank p)%nat) ->
+            assv x s = Some tx ->
+            NoDup (x :: path) /\ incl (x :: path) (map fst s) /\ (1 <= k)%nat /\
+            (length s - length (x :: path) <= k - 1)%nat /\
+            (forall y p, In y (vars tx) -> In p (x :: path) -> (rank y < rank p)%nat) /\
+            (size tx <= h)%nat).
+  { intros k path x tx Hnp Hip Hk Hlt E. apply assv_in in E.
+    assert (Hnx: ~ In x path).
+    { intros Hin. specialize (Hlt x x (or_introl eq_refl) Hin). lia. }
+    assert (Hnd': NoDup (x :: path)) by (constructor; assumption).
+    assert (Hi': incl (x :: path) (map fst s)).
+    { intros z [Hz|Hz]; [|auto]. subst z. change x with (fst (x, tx)). apply in_map. exact E. }
+    pose proof (NoDup_incl_length Hnd' Hi') as Hl. rewrite map_length in Hl. simpl in Hl.
+    split; [exact Hnd'|]. split; [exact Hi'|]. split; [lia|]. split; [simpl; lia|]. split.
+    - intros y p Hy [Hp|Hp].
+      + subst p. apply (Hr x tx y E Hy).
+      + pose proof (Hr x tx y E Hy). pose proof (Hlt x p (or_introl eq_refl) Hp). lia.
+    - apply (Hh x tx E). }
+  induction k as [|k IHk]; intros path Hnp Hip Hk t;
+    induction t as [| a | x | a IHa d IHd]; intros Hlt.
+  - constructor.
+  - constructor.
+  - destruct (assv x s) as [tx|] eqn:E; [|constructor; exact E].
+    destruct (Hvar _ _ _ _ Hnp Hip Hk Hlt E) as [_ [_ [Hk1 _]]]. lia.
+  - apply D_pair_bound.
+    + apply IHa. intros y p Hy Hp. apply Hlt; [simpl; apply in_or_app; auto|exact Hp].
+    + apply IHd. intros y p Hy Hp. apply Hlt; [simpl; apply in_or_app; auto|exact Hp].
+  - constructor.
+  - constructor.
+  - destruct (assv x s) as [tx|] eqn:E; [|constructor; exact E].
+    destruct (Hvar _ _ _ _ Hnp Hip Hk Hlt E) as [Hnd' [Hi' [_ [Hk' [Hlt' Hsz]]]]].
+    simpl in Hk'. rewrite Nat.sub_0_r in Hk'.
+    pose proof (IHk (x :: path) Hnd' Hi' Hk' tx Hlt') as Hd.
+    apply (D_mono s (TVar x) (S (h + k * S h))); [|simpl; lia].
+    eapply D_bnd; [exact E|]. apply (D_mono s tx _ Hd). lia.
+  - apply D_pair_bound.
+    + apply IHa. intros y p Hy Hp. apply Hlt; [simpl; apply in_or_app; auto|exact Hp].
+    + apply IHd. intros y p Hy Hp. apply Hlt; [simpl; apply in_or_app; auto|exact Hp].
+Qed.
+
+Definition Dmax (U : list N) (h : nat) : nat := h + length U * S h.
+
+Lemma D_global U h s t : wf s -> closedU U s -> hb h s -> (size t <= h)%nat -> D s t (Dmax U h).
+Proof.
+  intros Hwf Hcl Hh Hsz. pose proof (closedU_length U s Hwf Hcl) as Hl.
+  destruct Hwf as [Hnd [rank Hr]].
+  pose proof (D_bound s h rank Hr Hh (length s) [] (NoDup_nil _) (incl_nil_l _) ltac:(simpl; lia) t
+                ltac:(intros y p _ []; fail)) as Hd.
+  apply (D_mono s t _ Hd). unfold Dmax.
+  pose proof (Nat.mul_le_mono_r (length s) (length U) (S h) Hl). lia.
+Qed.
+
+Lemma walk_size h s : hb h s -> forall f x t, walk f x s = Some t -> (1 <= h)%nat -> (size t <= h)%nat.
+Proof.
+  intros Hh. induction f as [|f IH]; intros x t H H1; [discriminate|].
+  rewrite walk_S in H. destruct (assv x s) as [w|] eqn:E.
+  - apply assv_in in E. pose proof (Hh x w E) as Hw.
+    destruct w; try (inversion H; subst; exact Hw). eapply IH; eauto.
+  - inversion H; subst. simpl. exact H1.
+Qed.
+
+Lemma size_pos t : (1 <= size t)%nat.
+Proof. destruct t; simpl; lia. Qed.
+
+Lemma walkt_size h s f u uu : hb h s -> walkt f u s = Some uu -> (size u <= h)%nat -> (size uu <= h)%nat.
+Proof.
+  intros Hh H Hu. destruct u; simpl in H; try (inversion H; subst; exact Hu).
+  eapply walk_size; eauto.
+Qed.
+
+Lemma hb_snoc h s x t : hb h s -> (size t <= h)%nat -> hb h (s ++ [(x, t)]).
+Proof.
+  intros Hh Ht a w Hin. apply in_app_or in Hin. destruct Hin as [Hin|[Hin|[]]].
+  - apply (Hh a w Hin).
+  - inversion Hin; subst. exact Ht.
+Qed.
+
+Lemma unify_hb h : forall f u v s s', unify f u v s = Ok s' ->
+  hb h s -> (size u <= h)%nat -> (size v <= h)%nat -> hb h s'.
+Proof.
+  induction f as [|f IH]; intros u v s s' H Hh Hu Hv; [discriminate|].
+  rewrite unify_S in H.
+  destruct (walkt f u s) as [uu|] eqn:Eu; [|discriminate].
+  destruct (walkt f v s) as [vv|] eqn:Ev; [|discriminate].
+  pose proof (walkt_size h s f u uu Hh Eu Hu) as Huu.
+  pose proof (walkt_size h s f v vv Hh Ev Hv) as Hvv.
+  assert (Hext: forall x t, exts f x t s = Ok s' -> (size t <= h)%nat -> hb h s').
+  { intros x t He Ht. unfold exts in He. destruct (occurs f x t s) as [[|]|]; try discriminate.
+    inversion He; subst. apply hb_snoc; auto. }
+  destruct uu as [| au | xu | a d], vv as [| av | xv | a' d']; try discriminate;
+  try (inversion H; subst; exact Hh);
+  try (eapply Hext; [exact H|first [exact Huu|exact Hvv]]).
+  - destruct (atom_eqb au av); [|discriminate]. inversion H; subst; exact Hh.
+  - destruct (N.eqb xu xv).
+    + inversion H; subst; exact Hh.
+    + eapply Hext; [exact H|exact Hvv].
+  - simpl in Huu, Hvv. destruct (unify f a a' s) as [| |s1] eqn:E1; try discriminate.
+    eapply IH; [exact H| | |]; [|lia|lia].
+    eapply IH; [exact E1|exact Hh| |]; lia.
+Qed.
+
+Lemma unify_fuel U h : forall f m1 n s u v,
+  wf s -> closedU U s -> hb h s -> incl (vars u) U -> incl (vars v) U ->
+  (size u <= h)%nat -> (size v <= h)%nat ->
+  (length U - length s <= m1)%nat -> D s u n ->
+  (n + m1 * S (Dmax U h) + Dmax U h + 3 <= f)%nat ->
+  unify f u v s <> OOF.
+Proof.
+  induction f as [|f IH]; intros m1 n s u v Hwf Hcl Hh Hu Hv Hsu Hsv Hm1 Hd Hf; [lia|].
+  remember (Dmax U h) as DM eqn:EDM.
+  pose proof (D_global U h s u Hwf Hcl Hh Hsu) as Hdu. rewrite <- EDM in Hdu.
+  pose proof (D_global U h s v Hwf Hcl Hh Hsv) as Hdv. rewrite <- EDM in Hdv.
+  destruct (D_walkt_total s DM u Hdu) as [uu Ru0].
+  destruct (D_walkt_total s DM v Hdv) as [vv Rv0].
+  assert (Ru: walkt f u s = Some uu) by (apply (walkt_mono (S DM) u s uu Ru0); lia).
+  assert (Rv: walkt f v s = Some vv) by (apply (walkt_mono (S DM) v s vv Rv0); lia).
+  pose proof (walkt_vars U s f u uu Hcl Ru Hu) as Huu.
+  pose proof (walkt_vars U s f v vv Hcl Rv Hv) as Hvv.
+  pose proof (walkt_size h s f u uu Hh Ru Hsu) as Hsuu.
+  pose proof (walkt_size h s f v vv Hh Rv Hsv) as Hsvv.
+  pose proof (D_walkt s f u uu n Ru Hd) as Hdn.
+  pose proof (D_walkt s f u uu DM Ru Hdu) as Hduu.
+  pose proof (D_walkt s f v vv DM Rv Hdv) as Hdvv.
+  assert (Hxu: forall x, exts f x uu s <> OOF).
+  { intros x. unfold exts.
+    pose proof (occurs_some_mono (S (S DM)) x uu s (D_occurs s uu DM Hduu x) f ltac:(lia)) as Ho.
+    destruct (occurs f x uu s) as [[|]|]; congruence. }
+  assert (Hxv: forall x, exts f x vv s <> OOF).
+  { intros x. unfold exts.
+    pose proof (occurs_some_mono (S (S DM)) x vv s (D_occurs s vv DM Hdvv x) f ltac:(lia)) as Ho.
+    destruct (occurs f x vv s) as [[|]|]; congruence. }
+  rewrite unify_S, Ru, Rv.
+  destruct uu as [| au | xu | a d], vv as [| av | xv | a' d'];
+  try first [ discriminate | apply Hxu | apply Hxv ].
+  - destruct (atom_eqb au av); discriminate.
+  - destruct (N.eqb xu xv); [discriminate|apply Hxv].
+  - apply D_pair_inv in Hdn. destruct Hdn as [n' [En [Hda Hdd]]]. subst n.
+    simpl in Hsuu, Hsvv.
+    pose proof (IH m1 n' s a a' Hwf Hcl Hh (incl_pair_l a d U Huu) (incl_pair_l a' d' U Hvv)
+                  ltac:(lia) ltac:(lia) Hm1 Hda ltac:(lia)) as H1.
+    destruct (unify f a a' s) as [| |s1] eqn:E1; [congruence|discriminate|].
+    pose proof (unify_wf f a a' s s1 Hwf E1) as Hwf1.
+    pose proof (unify_closed U f a a' s s1 E1 Hcl (incl_pair_l a d U Huu) (incl_pair_l a' d' U Hvv)) as Hcl1.
+    pose proof (unify_hb h f a a' s s1 E1 Hh ltac:(lia) ltac:(lia)) as Hh1.
+    destruct (unify_sound f a a' s s1 E1) as [[ext Hext] _].
+    destruct ext as [|p ext].
+    + rewrite app_nil_r in Hext. subst s1.
+      apply (IH m1 n' s d d' Hwf Hcl Hh (incl_pair_r a d U Huu) (incl_pair_r a' d' U Hvv)
+                ltac:(lia) ltac:(lia) Hm1 Hdd ltac:(lia)).
+    + pose proof (closedU_length U s1 Hwf1 Hcl1) as Hl.
+      assert (Hl1: length s1 = (length s + S (length ext))%nat).
+      { rewrite Hext. rewrite app_length. reflexivity. }
+      destruct m1 as [|m1]; [lia|].
+      pose proof (D_global U h s1 d Hwf1 Hcl1 Hh1 ltac:(lia)) as Hdd1. rewrite <- EDM in Hdd1.
+      apply (IH m1 DM s1 d d' Hwf1 Hcl1 Hh1 (incl_pair_r a d U Huu) (incl_pair_r a' d' U Hvv)
+                ltac:(lia) ltac:(lia) ltac:(lia) Hdd1). lia.
+Qed.
+
+Definition maxsize (s : subst) : nat := fold_right (fun p m => Nat.max (size (snd p)) m) 0%nat s.
+
+Lemma maxsize_hb s : hb (maxsize s) s.
+Proof.
+  induction s as [|[k w] s IHs]; intros a t Hin; [contradiction|]. simpl.
+  destruct Hin as [Hin|Hin].
+  - inversion Hin; subst. lia.
+  - specialize (IHs a t Hin). lia.
+Qed.
+
+(* explicit fuel: with h the largest term size and n the number of variable occurrences,
+   Dm = h + n (h+1) bounds every expansion depth, and (n+1) (Dm+1) + Dm + 2 levels of recursion suffice *)
+Definition ufuel (u v : term) (s : subst) : nat :=
+  let n := length (universe u v s) in
+  let h := Nat.max (size u) (Nat.max (size v) (maxsize s)) in
+  let Dm := (h + n * S h)%nat in
+  (Dm + n * S Dm + Dm + 3)%nat.
+
+Theorem ufuel_enough : forall u v s, wf s -> unify (ufuel u v s) u v s <> OOF.
+Proof.
+  intros u v s Hwf. unfold ufuel.
+  set (U := universe u v s). set (h := Nat.max (size u) (Nat.max (size v) (maxsize s))).
+  apply (unify_fuel U h _ (length U) (Dmax U h) s u v Hwf (universe_closed u v s)).
+  - intros a t Hin. pose proof (maxsize_hb s a t Hin). unfold h. lia.
+  - unfold U, universe. apply incl_appl. apply incl_refl.
+  - unfold U, universe. apply incl_appr. apply incl_appl. apply incl_refl.
+  - unfold h. lia.
+  - unfold h. lia.
+  - lia.
+  - apply D_global; [exact Hwf|apply universe_closed| |unfold h; lia].
+    intros a t Hin. pose proof (maxsize_hb s a t Hin). unfold h. lia.
+  - unfold Dmax. lia.
+Qed.
+Print Assumptions ufuel_enough.
